@@ -57,6 +57,32 @@ SwapClauses(ev) ==
     M_Weight       |-> ev.acc => ev.weight_ok,
     M_OldUntouched |-> ev.untouched ]
 
+(* C11: with deterministic time-reversible dynamics two successive swaps restore the paths *)
+Swap2Clauses(ev) ==
+  [ S_SwapTwice |-> (ev.acc1 /\ ev.acc2) => (ev.back0 = ev.old0 /\ ev.back1 = ev.old1),
+    S_Exchange  |-> ev.acc1 =>
+                      /\ ev.mid0[Len(ev.mid0) - 1] = ev.old1[1] /\ ev.mid0[Len(ev.mid0)] = ev.old1[2]
+                      /\ ev.mid1[1] = ev.old0[Len(ev.old0) - 1] /\ ev.mid1[2] = ev.old0[Len(ev.old0)],
+    M_Member    |-> ev.acc1 => (MemberMinus(ev.mid0, ev.r0) /\ MemberPlus(ev.mid1, ev.l, ev.m, ev.r)) ]
+(* QuanTIS: accepted exactly when the drawn number is at most min(1, exp(beta0 dV0 - beta1 dV1)); the   *)
+(* harness realises the acceptance probability p = pnum/pden and places the draw just below or above it *)
+QuantisClauses(ev) ==
+  [ Q_Threshold |-> ev.crossings_ok => (ev.acc <=> (ev.side = "below" \/ ev.pnum >= ev.pden)),
+    Q_AccIffStatus |-> ev.acc = ev.status_acc,
+    Q_RejectCode |-> (ev.crossings_ok /\ ~ev.acc) => ev.status = "QEA",
+    M_OldUntouched |-> ev.untouched ]
+(* lambda_minus_one variant: a [0-] path that ended on the left is rejected without any propagation *)
+ZeroLClauses(ev) ==
+  [ Z_Rejected |-> ~ev.acc /\ ev.status = "0-L",
+    Z_NoPropagation |-> ev.ncalls = 0,
+    M_OldUntouched |-> ev.untouched ]
+
+ClausesOf(ev) == CASE ev.kind = "swap" -> SwapClauses(ev)
+                   [] ev.kind = "swap2" -> Swap2Clauses(ev)
+                   [] ev.kind = "quantis" -> QuantisClauses(ev)
+                   [] ev.kind = "zeroL" -> ZeroLClauses(ev)
+                   [] OTHER -> SingleClauses(ev)
+
 Failed(rec) == {n \in DOMAIN rec : ~rec[n]}
 Note(idx, names) == LET RECURSIVE F(_)
                         F(S) == IF S = {} THEN <<>> ELSE
@@ -64,7 +90,7 @@ Note(idx, names) == LET RECURSIVE F(_)
                     IN F(names)
 TInit == l = 1 /\ bad = <<>>
 TNext == /\ l <= Len(Tr) /\ l' = l + 1
-         /\ bad' = bad \o Note(l, Failed(IF Tr[l].kind = "swap" THEN SwapClauses(Tr[l]) ELSE SingleClauses(Tr[l])))
+         /\ bad' = bad \o Note(l, Failed(ClausesOf(Tr[l])))
 TSpec == TInit /\ [][TNext]_tvars
 Report == (l = Len(Tr) + 1) =>
             /\ \A k \in 1..Len(bad) : PrintT(<<"BADCLAUSE", bad[k][1], bad[k][2]>>)
